@@ -1,6 +1,9 @@
+from collections import deque
 from dataclasses import dataclass
 from dataclasses import field
 import re
+from typing import Deque
+from typing import Iterable
 from typing import List
 from typing import Optional
 from typing import Protocol
@@ -11,10 +14,10 @@ from typing import TypeVar
 class BadCueSheet(Exception): pass
 
 
-def get_nonempty_entry(lines: List[str]) -> Tuple[str, List[str]]:
+def get_nonempty_entry(lines: Deque[str]) -> Tuple[str, Deque[str]]:
     text = ""
     while len(lines):
-        text = lines.pop(0).strip()
+        text = lines.popleft().strip()
         if len(text):
             break
     return text, lines
@@ -22,7 +25,7 @@ def get_nonempty_entry(lines: List[str]) -> Tuple[str, List[str]]:
 
 T = TypeVar("T", covariant=True)
 class CueItemAdapter(Protocol[T]):
-    def parse(self, lines: List[str]) -> T: ...
+    def parse(self, lines: Deque[str]) -> T: ...
 
 
 _AUDIO_FRAMES_PER_SECOND = 75
@@ -54,7 +57,7 @@ _TITLE_LINE_REGEX = re.compile(r"\s*TITLE\s+\"(.*?)\"", flags=re.I)
 _INDEX_LINE_REGEX = re.compile(r"\s*INDEX\s+(\d+)\s+(\d+):(\d+):(\d+)", flags=re.I)
 class CueSheetTrackAdapter:
     @classmethod
-    def parse(cls, lines: List[str]):
+    def parse(cls, lines: Deque[str]):
         text, lines = get_nonempty_entry(lines)
         if len(text) <= 0:
             raise BadCueSheet
@@ -76,7 +79,7 @@ class CueSheetTrackAdapter:
             # Check if next track began
             result = _TRACK_LINE_REGEX.match(text)
             if result:
-                lines = [text] + lines
+                lines.appendleft(text)
                 break
 
             # check known properties
@@ -117,7 +120,7 @@ class CueSheetFileAdapter:
 
 
     @classmethod
-    def parse(cls, lines: List[str]):
+    def parse(cls, lines: Deque[str]):
         text, lines = get_nonempty_entry(lines)
         if len(text) <= 0:
             raise BadCueSheet
@@ -131,7 +134,7 @@ class CueSheetFileAdapter:
             text, lines = get_nonempty_entry(lines)
             if len(text) <= 0:
                 break
-            lines = [text] + lines
+            lines.appendleft(text)
             track, lines = CueSheetTrackAdapter.parse(lines)
             if track:
                 cue_sheet.tracks.append(track)
@@ -139,13 +142,14 @@ class CueSheetFileAdapter:
         return cue_sheet, lines
 
 
-def parse_cue_sheet(lines: List[str]) -> CueSheetFile:
+def parse_cue_sheet(lines: Iterable[str]) -> CueSheetFile:
+    lines = deque(lines)
     cue_sheet_files = []
     while len(lines):
         text, lines = get_nonempty_entry(lines)
         match_result = _FILE_LINE_REGEX.match(text)
         if match_result:
-            lines = [text] + lines
+            lines.appendleft(text)
             cue_sheet_file, lines = CueSheetFileAdapter.parse(lines)
             cue_sheet_files.append(cue_sheet_file)
     
